@@ -57,15 +57,15 @@ CHECKS = {
 
 # what was added after the first version of each check (kept separate so the original texts stay readable)
 SUFFIX = {
- "C05": " Also repeated in a build with -C target-cpu=native; one run in four uses trait-qualified (generic) call sites.",
+ "C05": " Also repeated in a build with -C target-cpu=native; one run in four uses trait-qualified (generic) call sites; giant requests (2^31 / 2^32 + k bytes into an aliased 4 GiB window); other-targets pass: Miri interprets a history program for s390x (big-endian), i686 (32-bit) and (thorough) mips, digests must equal the host's.",
  "C10": " == is probed per type and also evaluated on copies at different addresses/alignments.",
- "C11": " Seven ways of writing/reading the image: slice, framed inside a larger document, short-read readers, serde_json::Value.",
+ "C11": " Eight ways of writing/reading the image: slice, framed inside a larger document, short-read readers, serde_json::Value, TOML; far-along counter states.",
  "C12": " Also: long-haul histories (2^16 collections), contained set_rounds(0), nested use from inside another generator's timer callback, process history (real-clock JitterRng::new() first), wall-clock seam (real clock flying while the code runs).",
  "C13": " Also steps back between probes and near-constant timers with tolerated steps.",
- "C14": " Also damaged snapshots (must fail, not panic), seeding sweeps, contained set_rounds(0), Debug while unwinding / on another thread.",
+ "C14": " Also damaged snapshots (must fail, not panic), seeding sweeps, contained set_rounds(0), Debug while unwinding / on another thread, far-along ISAAC counters, every second worker with an unwritable stderr (/dev/full), an extra build with rand_jitter std-without-log, and a Miri part: single-threaded histories of all 20 types interpreted by Miri (undefined behaviour that does not panic).",
  "C16": " Histories also contain timer_stats / test_timer / contained set_rounds(0), 2^16-collection long hauls, and the wall-clock seam.",
- "C17": " Texts under every formatter flag, also while unwinding / on another thread, after non-output operations; extra passes: build with --cfg fuzzing, and every ALL_CAPS token of the compiled crates set as environment variable.",
- "C18": " Configurations include -C target-cpu=native and (thorough) opt-level 1 / s with overflow checks and debug assertions split; seeding sweeps in the corpus.",
+ "C17": " HC-128 marathons (2^27 words per twin). Texts under every formatter flag, also while unwinding / on another thread, after non-output operations; extra passes: build with --cfg fuzzing, and every ALL_CAPS token of the compiled crates set as environment variable.",
+ "C18": " Configurations include -C target-cpu=native and (thorough) opt-level 1 / s with overflow checks and debug assertions split; seeding sweeps and frozen-clock histories in the corpus; other-targets pass as in C05.",
  "C19": " Also clones of JitterRng inside schedules, near-equal and quantised private clocks, and same-thread nesting through the timer callback.",
 }
 
